@@ -5,7 +5,7 @@
    status.  proto.Marshal emits known fields in field-number order, so the bytes of a span with events (field 11) and a status
    (field 15) are the bytes of SpansWire.enc_span followed by those fields.
 
-     Span.Event : time_unix_nano = 1 (fixed64), name = 2 (string), attributes = 3 (repeated KeyValue)
+     Span.Event : time_unix_nano = 1 (fixed64), name = 2 (string), attributes = 3 (repeated KeyValue), dropped_attributes_count = 4 (uint32)
      Status     : message = 2 (string), code = 3 (enum, varint)
 
    Executable definitions only; the round trip is proved in proofs/SpansWireXProofs.v. *)
@@ -15,14 +15,15 @@ Import ListNotations.
 Open Scope string_scope.
 Open Scope Z_scope.
 
-Record oevent := { e_time : Z; e_name : string; e_attrs : attrs }.
+Record oevent := { e_time : Z; e_name : string; e_attrs : attrs; e_dropped : Z (* dropped_attributes_count = 4, uint32 *) }.
 Record ostatus := { s_msg : string; s_code : Z }.
 (* what the span carries besides the fields of Spans.ospan *)
 Record oextra := { x_events : list oevent; x_status : option ostatus }.
 Definition no_extra : oextra := {| x_events := []; x_status := None |}.
 
 Definition fields_event (e : oevent) : list field :=
-  (fixed64_field 1 (e_time e) ++ bytes_field 2 (e_name e) ++ map (fun kv => (3%N, RBytes (enc_kv kv))) (e_attrs e))%list.
+  (fixed64_field 1 (e_time e) ++ bytes_field 2 (e_name e) ++ map (fun kv => (3%N, RBytes (enc_kv kv))) (e_attrs e)
+   ++ varint_field 4 (e_dropped e))%list.
 Definition enc_event (e : oevent) : string := ser_fields (fields_event e).
 Definition fields_status (s : ostatus) : list field := (bytes_field 2 (s_msg s) ++ varint_field 3 (s_code s))%list.
 Definition enc_status (s : ostatus) : string := ser_fields (fields_status s).
@@ -32,12 +33,14 @@ Definition fields_extra (x : oextra) : list field :=
 Definition enc_spanx (s : ospan) (x : oextra) : string := ser_fields (fields_span s ++ fields_extra x).
 
 (* ------------------------------------------------------------------ decoding *)
-Definition event0 : oevent := {| e_time := 0; e_name := EmptyString; e_attrs := [] |}.
+Definition event0 : oevent := {| e_time := 0; e_name := EmptyString; e_attrs := []; e_dropped := 0 |}.
+Definition u32_of (n : N) : Z := Z.of_N n mod 4294967296.       (* a uint32 read from a varint: truncated *)
 Definition event_step (st : oevent) (f : field) : option oevent :=
   let '(n, v) := f in
   match v with
-  | RFixed64 x => if (n =? 1)%N then Some {| e_time := Z.of_N x; e_name := e_name st; e_attrs := e_attrs st |} else Some st
-  | RBytes b => if (n =? 2)%N then Some {| e_time := e_time st; e_name := b; e_attrs := e_attrs st |} else Some st
+  | RFixed64 x => if (n =? 1)%N then Some {| e_time := Z.of_N x; e_name := e_name st; e_attrs := e_attrs st; e_dropped := e_dropped st |} else Some st
+  | RBytes b => if (n =? 2)%N then Some {| e_time := e_time st; e_name := b; e_attrs := e_attrs st; e_dropped := e_dropped st |} else Some st
+  | RVarint x => if (n =? 4)%N then Some {| e_time := e_time st; e_name := e_name st; e_attrs := e_attrs st; e_dropped := u32_of x |} else Some st
   | _ => Some st
   end.
 Definition dec_event (fuel : nat) (b : string) : option oevent :=
@@ -45,7 +48,7 @@ Definition dec_event (fuel : nat) (b : string) : option oevent :=
   | None => None
   | Some fs =>
       match fold_opt event_step fs event0, dec_kvs (dec_any_f fuel) 3 fs with
-      | Some st, Some a => Some {| e_time := e_time st; e_name := e_name st; e_attrs := a |}
+      | Some st, Some a => Some {| e_time := e_time st; e_name := e_name st; e_attrs := a; e_dropped := e_dropped st |}
       | _, _ => None
       end
   end.
@@ -103,7 +106,7 @@ Definition dec_spanx (b : string) : option (ospan * oextra) :=
 
 (* ------------------------------------------------------------------ the domain of the round trip *)
 Definition event_ok (e : oevent) : bool :=
-  (0 <=? e_time e) && (e_time e <? two64) && forallb (fun kv => any_ok (snd kv)) (e_attrs e).
+  (0 <=? e_time e) && (e_time e <? two64) && (0 <=? e_dropped e) && (e_dropped e <? 4294967296) && forallb (fun kv => any_ok (snd kv)) (e_attrs e).
 Definition status_ok (s : ostatus) : bool := (0 <=? s_code s) && (s_code s <? 2147483648).
 Definition extra_ok (x : oextra) : bool :=
   forallb event_ok (x_events x) && match x_status x with Some s => status_ok s | None => true end.
@@ -159,7 +162,7 @@ Definition xread_violations (cs : list xcase) : list Z := map xc_id (filter (fun
 Definition wirex_mismatches (cs : list xcase) : list Z := map xc_id (filter (fun c => negb (wirex_matches c)) cs).
 (* every payload of the run lies in the domain of the round-trip theorem and decodes to what was encoded *)
 Definition oevent_eqb (a b : oevent) : bool :=
-  (e_time a =? e_time b) && String.eqb (e_name a) (e_name b) && list_eqb attr_eqb (e_attrs a) (e_attrs b).
+  (e_time a =? e_time b) && String.eqb (e_name a) (e_name b) && list_eqb attr_eqb (e_attrs a) (e_attrs b) && (e_dropped a =? e_dropped b).
 Definition ostatus_eqb (a b : ostatus) : bool := String.eqb (s_msg a) (s_msg b) && (s_code a =? s_code b).
 Definition oextra_eqb (a b : oextra) : bool :=
   list_eqb oevent_eqb (x_events a) (x_events b) && opt_eqb ostatus_eqb (x_status a) (x_status b).
